@@ -4,3 +4,6 @@ import SplinkVerif.Model.CC
 import SplinkVerif.Model.MultiThreshold
 import SplinkVerif.Model.Blocking
 import SplinkVerif.Model.Score
+import SplinkVerif.Model.ArithNum
+import SplinkVerif.Generated.Arith
+import SplinkVerif.Model.BlockingAnalysis
